@@ -63,6 +63,13 @@ func (resolver *referenceResolver) PackageForNode(source cueast.Node, defaultPac
 			return resolver.PackageForNode(selector.X, defaultPackage)
 		}
 
+		// the name given to an import is scoped to the file it is written in: two files of
+		// a package can give the same name to different packages. CUE binds the identifier to
+		// the import it stands for.
+		if spec, boundToImport := x.Node.(*cueast.ImportSpec); boundToImport && spec.Path != nil {
+			return resolver.packageFromImportPath(spec.Path.Value), nil
+		}
+
 		return resolver.resolveImportAlias(x.Name), nil
 	case *cueast.Field:
 		field := source.(*cueast.Field)
